@@ -110,7 +110,7 @@ def draw_base(rng, tier, need_zero_start=False):
         n = int(rng.integers(4, 401))
     else:
         n = int(rng.integers(400, 5001))
-    x, cls = gen.record(rng, n)
+    x, cls = gen.record(rng, n, wide=True)
     if need_zero_start:
         x = x.copy()
         x[0] = 0.0
@@ -242,7 +242,7 @@ def g_causal(ctx, eqsig, g):
              sample={'kind': 'causal', 'n': n, 'split': i, 'dt': dt, 'T/dt': periods / dt, 'xi': xi})
     for name, rec in (('base', a), ('alt', b)):
         trace.set_tag(tag + name)
-        eqsig.sdof.response_series(rec, dt, periods, xi)
+        eqsig.sdof.response_series(as_form(rng, rec), dt, periods, xi)
     trace.set_tag(None)
     ev = {e['tag'][len(tag):]: e['result'] for e in recorded(tag, 'nj')}
     if len(ev) != 2:
@@ -268,7 +268,7 @@ def g_shift(ctx, eqsig, g):
              sample={'kind': 'shift', 'n': n, 'k': k, 'dt': dt, 'T/dt': periods / dt, 'xi': xi})
     for name, rec in (('base', a), ('shifted', b)):
         trace.set_tag(tag + name)
-        eqsig.sdof.response_series(rec, dt, periods, xi)
+        eqsig.sdof.response_series(as_form(rng, rec), dt, periods, xi)
     trace.set_tag(None)
     ev = {e['tag'][len(tag):]: e['result'] for e in recorded(tag, 'nj')}
     if len(ev) != 2:
@@ -306,6 +306,7 @@ def g_perm(ctx, eqsig, g, batch=False):
     wit = lambda: {'kind': kind, 'a': a, 'dt': dt, 'periods': periods, 'xi': xi}
     ctx.case(core.digest(a, dt, periods, xi, kind), nontrivial=bool(a.any()), cls=kind + '/' + cls,
              sample={'kind': kind, 'n': n, 'dt': dt, 'T/dt': periods / dt, 'xi': xi})
+    dig_a, dig_p = core.digest(a), core.digest(periods)
     trace.set_tag(tag + 'base')
     fn = [eqsig.sdof.response_series, eqsig.sdof.pseudo_response_spectra, eqsig.sdof.true_response_spectra][int(rng.integers(3))]
     fname = {eqsig.sdof.response_series: 'nj', eqsig.sdof.pseudo_response_spectra: 'pseudo', eqsig.sdof.true_response_spectra: 'true'}[fn]
@@ -336,6 +337,7 @@ def g_perm(ctx, eqsig, g, batch=False):
         else:
             fn(a, dt, [p, list(p), tuple(p)][int(rng.integers(3))], xi)
     trace.set_tag(None)
+    ctx.check(core.digest(a) == dig_a and core.digest(periods) == dig_p, 'arguments-unchanged', wit, 'record or period array modified by the calls')
     evs = [e for e in trace.take(tag) if e['fn'] == fname]
     base = [e for e in evs if e['tag'].endswith('base')]
     if len(base) != 1 or len(evs) != 1 + len(subsets):
@@ -374,6 +376,16 @@ def g_perm(ctx, eqsig, g, batch=False):
         ctx.check(okk, clause, wit, msg)
         if bit:
             ctx.observe(kind + ': bit-identical sub-calls')
+
+
+def as_form(rng, rec):
+    """the same float64 numbers in another argument form (list, strided view, read-only array): exact relations are unaffected"""
+    k = int(rng.integers(6))
+    if k == 0:
+        return [float(t) for t in rec]
+    if k == 1:
+        return gen.view_form(rng, rec)[0]
+    return rec
 
 
 def refine_record(a, r):
